@@ -1,4 +1,6 @@
 import Proofs.C12
+import Proofs.C02Hist
+import Proofs.C02Cross
 /-!
 # C02 — Marshal then Unmarshal gives back the value (property theorems)
 
@@ -7,7 +9,7 @@ real code: whenever gocql.Marshal succeeds on a documented (column, Go type, val
 bytes into the same Go type gives an equal value.
 -/
 namespace C02
-open ValueSpec Marshal C12Bytes C12Int C12Varint C12Scalar C12
+open ValueSpec Marshal C12Bytes C12Int C12Varint C12Scalar C12 C02Hist C02Cross
 
 /-! ## integer columns, same Go kind — INCLUDING the unsigned wrap window -/
 
@@ -200,4 +202,151 @@ theorem C02_udt_null_vs_empty_witness :
   · simp [marshal, udtAssemble, marshalNamed, seqItems, l1, l2, marshalScalar, marshalVarcharColumn, appendBytes, h0, hm]
   · simp [unmarshal, withPtr, stripPtr, unmarshalBase, dataBytes, unmarshalUdtStruct, zeroOf, zeroOfs, shorter, readBytesM,
       d0, dm, l1, l2, C12Frame.unmarshalScalar_text_str, wrapPtr]
+
+/-! ## HISTORY: the answers of a process do not depend on what it marshalled / unmarshalled before (op `hseq`) -/
+
+/-- a process that makes any sequence of Marshal / Unmarshal round trips (`Model/MarshalHistory.lean`: the state is the
+    whole history of calls): (1) the answer to a call is the same in every state, (2) the answers of a sequence are the
+    per-call answers, (3) so a call gets the same answer whatever precedes and follows it.  The op `hseq` compares every
+    call of a sequence made by the REAL code in one process with its per-call answer. -/
+theorem C02_marshal_history_independent :
+    (∀ (h h' : Hist) (c : Call), (procStep h c).2 = (procStep h' c).2) ∧
+    (∀ (h : Hist) (cs : List Call), procRun h cs = cs.map callModel) ∧
+    (∀ (h : Hist) (pre suf : List Call) (c : Call), (procRun h (pre ++ c :: suf))[pre.length]? = some (callModel c)) := by
+  refine ⟨fun _ _ _ => rfl, procRun_eq_map, ?_⟩
+  intro h pre suf c
+  rw [procRun_eq_map]
+  simp
+
+/-- the encoding of a struct bound to a UDT column depends on the cql-tag → value association ONLY: two structs whose
+    (tag, value) lists are permutations of each other (distinct tags) — the same fields declared in another order — are
+    encoded to the same bytes, for every UDT type, every protocol version, every field value (nested ones included).
+    In particular nothing of the Go type but its tags enters (`GoVal.udtstruct names vs`): not its name, not the field
+    indexes of another type. -/
+theorem C02_udt_layout_independent (p : Nat) (names : List String) (ts : List CqlTy) (fs gs : List (String × GoVal))
+    (hp : fs.Perm gs) (hnd : (fs.map (·.1)).Nodup) :
+    marshal p (.udt names ts) (.udtstruct (fs.map (·.1)) (fs.map (·.2))) =
+    marshal p (.udt names ts) (.udtstruct (gs.map (·.1)) (gs.map (·.2))) := by
+  have key : ∀ xs : List (String × GoVal), marshal p (.udt names ts) (.udtstruct (xs.map (·.1)) (xs.map (·.2))) =
+      if names = [] then .ok none else
+        seqItems (fun item => some (appendBytes item)) (names.map (fun n => pick (enc1 p names ts) n xs)) := by
+    intro xs
+    simp only [marshal]
+    rw [marshalNamed_eq, udtAssemble_pick]
+  rw [key fs, key gs]
+  split
+  · rfl
+  · congr 1
+    apply List.map_congr_left
+    intro n _
+    exact pick_perm _ n fs gs hp hnd
+
+/-- non-vacuity: (street, city) declared in both orders -/
+example : marshal 4 (.udt ["a", "b"] [.text, .text]) (.udtstruct ["a", "b"] [.str false [65], .str false [66]]) =
+    marshal 4 (.udt ["a", "b"] [.text, .text]) (.udtstruct ["b", "a"] [.str false [66], .str false [65]]) :=
+  C02_udt_layout_independent 4 ["a", "b"] [.text, .text] [("a", .str false [65]), ("b", .str false [66])]
+    [("b", .str false [66]), ("a", .str false [65])] (List.Perm.swap _ _ _) (by decide)
+
+/-! ## CROSS-KIND round trip of a varint column against the specification `crossSpec` (op `rtx`) -/
+
+theorem holds_bounds (k : IntKind) (v : Int) (hv : k.holds v = true) :
+    -9223372036854775808 ≤ v ∧ v < 18446744073709551616 ∧ (k.signed = true → v < 9223372036854775808) ∧
+    (k.signed = false → 0 ≤ v) := by
+  cases k <;> simp [IntKind.holds, IntKind.signed, IntKind.bits, leB_iff, ltB_iff] at hv ⊢ <;> omega
+
+theorem unmarshalIntKind_varint_holds (k : IntKind) (v : Int) (hv : k.holds v = true) :
+    unmarshalIntKind .varint v k = some v := by
+  cases k <;> simp [IntKind.holds, IntKind.signed, IntKind.bits, leB_iff, ltB_iff] at hv <;>
+    simp [unmarshalIntKind, toU] <;> omega
+
+/-- a Go integer of ANY kind (named or not, the unsigned upper half 2^63 … 2^64−1 included) bound to a varint column:
+    (1) Marshal refuses exactly the documented refusals (`uint` / named unsigned kinds above MaxInt64: marshalBigInt's
+    range check) — the bare `uint64` is accepted on its whole range; (2) when it accepts, Unmarshal into EVERY destination
+    for which the specification `crossTarget` claims a value — every integer kind able to hold the number, `*big.Int`,
+    `*string`, time.Duration — gives exactly that value.  Not claimed (`crossTarget` = excluded, with the finding's id):
+    a number ≥ 2^63 into `*uint` / named unsigned kinds (KF-C12-12) and a number outside int64 into `*string`
+    (KF-C02-5): `C02_cex_varint_upper_half`. -/
+theorem C02_varint_cross_target (k : IntKind) (named : Bool) (v : Int) (hv : k.holds v = true) :
+    (marshalVarintKind k named v = none ↔
+      (k.signed = false ∧ v ≥ 9223372036854775808 ∧ ¬ (k = .uint64 ∧ named = false))) ∧
+    (∀ b, marshalVarintKind k named v = some b →
+      ∀ base w, crossTarget true v base = .ok w → unmarshalVarint b base = .ok w) := by
+  have hb := holds_bounds k v hv
+  constructor
+  · cases k <;> cases named <;>
+      simp [marshalVarintKind, marshalIntKind, IntKind.signed, IntKind.holds, IntKind.bits, leB_iff, ltB_iff] at hv ⊢ <;>
+      first | omega | (split <;> simp)
+  · intro b hm base w hc
+    have hbs : b = specVarint v := marshalVarintKind_spec k named v hv b hm
+    subst hbs
+    have hne := specVarint_ne_nil v
+    cases base with
+    | big =>
+      simp only [crossTarget] at hc
+      injection hc with hc
+      subst hc
+      simp [unmarshalVarint, decBigInt2C_specVarint]
+    | int k' n' =>
+      simp only [crossTarget] at hc
+      split at hc
+      · cases hc
+      · rename_i hh
+        split at hc
+        · cases hc
+        · rename_i hex
+          injection hc with hc
+          subst hc
+          have hh' : k'.holds v = true := by simpa using hh
+          have hb' := holds_bounds k' v hh'
+          by_cases hlo : v < 9223372036854775808
+          · have hfit : fitsS 8 v = true := by simp [fitsS, leB_iff, ltB_iff]; omega
+            have hlen := specVarint_length_le 8 v (by omega) hfit
+            simp [unmarshalVarint, front_val _ hne hlen, tcDec_specVarint, unmarshalIntlike,
+              unmarshalIntKind_varint_holds k' v hh', optU]
+          · have hk : k' = .uint64 ∧ n' = false := by
+              simp at hex
+              have := hex (by omega)
+              exact this
+            obtain ⟨rfl, rfl⟩ := hk
+            have hm2 : ((v.toNat : Nat) : Int) = v := by omega
+            have hup := specVarint_upper v.toNat (by omega) (by omega)
+            rw [hm2] at hup
+            rw [hup]
+            have h9 : (0 :: beBytes 8 v.toNat).length = 9 := by simp [beBytes_length]
+            simp [unmarshalVarint, unmarshalVarintFront, h9, bytesToUint64_beBytes8 v.toNat (by omega), hm2]
+    | str nm =>
+      cases nm with
+      | true => simp [crossTarget] at hc
+      | false =>
+        simp only [crossTarget] at hc
+        split at hc
+        · cases hc
+        · rename_i hex
+          injection hc with hc
+          subst hc
+          have hfit : fitsS 8 v = true := by simpa using hex
+          have hlen := specVarint_length_le 8 v (by omega) hfit
+          simp [unmarshalVarint, front_val _ hne hlen, tcDec_specVarint, unmarshalIntlike]
+    | dur =>
+      simp only [crossTarget] at hc
+      split at hc
+      · rename_i hfit
+        injection hc with hc
+        subst hc
+        have hlen := specVarint_length_le 8 v (by omega) hfit
+        simp [unmarshalVarint, front_val _ hne hlen, tcDec_specVarint, unmarshalIntlike]
+      · cases hc
+    | _ => simp [crossTarget] at hc
+
+/-- FULL STATEMENT (does not hold): "… into any documented target type able to represent the value".  2^63 written by a
+    bare uint64 into a varint column (00 80 00 00 00 00 00 00 00) decodes into *uint64 and *big.Int, but `*uint`, which
+    can hold it, gets an error (KF-C12-12) and so does `*string` (KF-C02-5).
+    = replay inputs `rt 4 varint i uint64 9223372036854775808 k uint` / `… string` -/
+theorem C02_cex_varint_upper_half :
+    marshalVarintKind .uint64 false 9223372036854775808 = some [0, 128, 0, 0, 0, 0, 0, 0, 0] ∧
+    unmarshalVarint [0, 128, 0, 0, 0, 0, 0, 0, 0] (.int .uint64 false) = .ok (.int .uint64 false 9223372036854775808) ∧
+    unmarshalVarint [0, 128, 0, 0, 0, 0, 0, 0, 0] (.int .uint false) = .err ∧
+    IntKind.uint.holds 9223372036854775808 = true ∧
+    unmarshalVarint [0, 128, 0, 0, 0, 0, 0, 0, 0] (.str false) = .err := by
+  refine ⟨by decide, by rfl, by rfl, by decide, by rfl⟩
 end C02
